@@ -143,3 +143,18 @@ impl<T> vstd::std_specs::iter::IteratorSpecImpl for SeqIter<T> {
 pub fn vx_nonempty(s: String) -> (r: String)
     ensures r@ == s@, r@.len() > 0,
 { s }
+// Vec::extend(iterator): appends the iterator's items (A-iter); `into_items` is the item sequence of
+// an arbitrary IntoIterator, known to be the view for SeqIter
+pub uninterp spec fn into_items<I, T>(it: I) -> Seq<T>;
+pub broadcast axiom fn axiom_into_items_seqiter<T>(it: SeqIter<T>)
+    ensures #[trigger] into_items::<SeqIter<T>, T>(it) == it@;
+pub assume_specification<T, A: std::alloc::Allocator, I: IntoIterator<Item = T>>[ <Vec<T, A> as Extend<T>>::extend::<I> ](v: &mut Vec<T, A>, it: I)
+    ensures final(v)@ == old(v)@ + into_items::<I, T>(it);
+/// R5b: `v.splice(a..b, w).collect()` — replaces v[a..b] by w and yields the removed items; panics
+/// unless a <= b <= len (std::vec::Vec::splice / Drain bounds check)
+#[verifier::external_body]
+pub fn vx_splice<T>(v: &mut Vec<T>, a: usize, b: usize, w: Vec<T>) -> (r: Vec<T>)
+    requires a <= b <= old(v)@.len(),
+    ensures final(v)@ == old(v)@.subrange(0, a as int) + w@ + old(v)@.subrange(b as int, old(v)@.len() as int),
+        r@ == old(v)@.subrange(a as int, b as int),
+{ unimplemented!() }
